@@ -12,6 +12,8 @@ pub struct RunStats {
     pub nonzero_decisions: u64,
     pub trace_hash: u64,
     pub sink_ops: u64,
+    /// hash of the observable outcome (sink image, outputs) where the engine computes one
+    pub outcome_hash: u64,
     /// fault kinds that actually fired in this run
     pub faults: BTreeMap<String, u64>,
     pub probes: BTreeMap<String, u64>,
